@@ -143,6 +143,12 @@ func (v *ControllerVisitor) visitController(controllerNode *ast.TypeSpec) (metad
 
 	// Go over all enumerated source files and look for receivers for the controller
 	for _, file := range v.context.ArbitrationProvider.GetAllSourceFiles() {
+		// Methods can only be declared in the receiver's own package; a same-named struct in another package is unrelated
+		filePkg, pkgErr := v.context.ArbitrationProvider.Pkg().GetPackageForFile(file)
+		if pkgErr == nil && filePkg != nil && filePkg.PkgPath != controllerMeta.Struct.PkgPath {
+			continue
+		}
+
 		for _, declaration := range file.Decls {
 			switch funcDeclaration := declaration.(type) {
 			case *ast.FuncDecl:
